@@ -165,6 +165,17 @@ func parseArgsWithExpiration(args map[string]any, defaultHandler func(name strin
 func fnGetEx(ctx *cmdContext, args map[string]any) (output respValue, err error) {
 	keyName := args["key"].(string)
 
+	// without an expiration option GETEX is a plain GET: the time to live is left alone
+	hasOption := false
+	for name := range args {
+		if strings.HasPrefix(name, "expiration.") {
+			hasOption = true
+		}
+	}
+	if !hasOption {
+		return fnGet(ctx, args)
+	}
+
 	expiration, valid := parseArgsWithExpiration(args, nil)
 	if !valid {
 		output.data = respErrorString(fmt.Sprintf("ERR invalid expire time in '%s' command", ctx.cmdName))
